@@ -136,4 +136,14 @@ theorem C01_toPb_current (l l' : List Nat) (h : l.Perm l') :
 /-! non-vacuity: two different iteration orders of one set -/
 example : sortKeys [1, 2] = sortKeys [2, 1] := C01_sort_perm_invariant _ _ (Perm.swap 2 1 [])
 
+/-- whether a node served RPC queries is an in-process incidental: the query handlers build private StateDBs (`statedb.New`), only
+    the state-machine entry points use the constructor that publishes in the process-wide `Keeper.Bank.StateDB` (seed C01-11 had
+    the trace handler publish its StateDB, which the next EVM message of the block then adopted) -/
+theorem fact_C01_query_handlers_publish_nothing :
+    Generated.privateConstructorCallers =
+      ["x/evm/keeper:Keeper.EstimateGasForEvmCallType", "x/evm/keeper:Keeper.EthCall", "x/evm/keeper:Keeper.NewStateDB",
+       "x/evm/keeper:Keeper.TraceEthTxMsg", "x/evm/keeper:Keeper.TraceTx"] ∧
+    Generated.publishingConstructorCallers.all (fun c => c.startsWith "x/evm/keeper:Keeper.") = true := by
+  constructor <;> decide +kernel
+
 end Nibiru.Determinism
